@@ -148,7 +148,7 @@ def validate_stream(ctx, stream, vcases, plats, families=None):
     return st
 
 
-def run_impl_cases(cases, jobs=8):
+def run_impl_cases(cases, jobs=12):
     """C.run_impl on slices of the case list in parallel subprocesses (every case is independent: own temp dir)"""
     import concurrent.futures
     if len(cases) < 64:
@@ -204,7 +204,7 @@ def run(ctx: C.Ctx):
     # boards: every family for every registered id, against every real platform ...
     fam_count = {}
     board_nm = {}                      # name -> (family, the id it was derived from)
-    for rnd in range(3 if thorough else 1):
+    for rnd in range(5 if thorough else 1):
         for b in all_boards:
             for fam, vs in NM.near_miss_names(b, rng).items():
                 for v in vs:
@@ -212,7 +212,7 @@ def run(ctx: C.Ctx):
                         board_nm[v] = (fam, b)
                         fam_count["board:" + fam] = fam_count.get("board:" + fam, 0) + 1
     plat_nm = {}
-    for rnd in range(3 if thorough else 1):
+    for rnd in range(5 if thorough else 1):
         for pname in plats:
             for fam, vs in NM.near_miss_names(pname, rng).items():
                 for v in vs:
@@ -226,7 +226,7 @@ def run(ctx: C.Ctx):
     ncases += [["validate", v, b] for v in sorted(plat_nm) for b in some_boards + some_nm]
     # ... and near-miss x near-miss
     pn_sample = rng.sample(sorted(plat_nm), min(len(plat_nm), 40 if thorough else 8))
-    ncases += [["validate", p, v] for v in rng.sample(sorted(board_nm), 6000 if thorough else 1500) for p in pn_sample[:4]]
+    ncases += [["validate", p, v] for v in rng.sample(sorted(board_nm), 20000 if thorough else 1500) for p in pn_sample[:(8 if thorough else 4)]]
     nstat = validate_stream(ctx, "near-miss families", ncases, plats, families=(board_nm, plat_nm))
 
     lap("validate: near-miss families")
@@ -243,7 +243,7 @@ def run(ctx: C.Ctx):
     # ---------------- cases for write_project (inside the guard)
     wcases = []
     pairs = [(p, b) for p, bs in plats.items() for b in sorted(bs)]
-    n_w = 900 if thorough else 260
+    n_w = 2000 if thorough else 260
     libpool = LIB_POOL
     srcpool = SRC_POOL
 
@@ -292,16 +292,16 @@ def run(ctx: C.Ctx):
     # first, its case variant (every order, every repeat pattern up to the length bound)
     alpha = ["Servo", "Wire", "", "Servo2", "servo"]
     import itertools
-    for n in range(0, 6 if thorough else 5):
+    for n in range(0, 7 if thorough else 5):
         for combo in itertools.product(alpha, repeat=n):
             wcases.append(["write", "int x;", "COM3", "atmelavr", "uno", list(combo), False, 0])
-    n_exh = sum(len(alpha) ** n for n in range(0, 6 if thorough else 5))
+    n_exh = sum(len(alpha) ** n for n in range(0, 7 if thorough else 5))
 
     # unregistered pairs must write nothing: fixed ones, then near-miss names in board and platform position
     # (fresh directory, or on top of a project generated earlier for the registered twin - which must stay as it was)
     bad = [("atmelavr", "nano_every"), ("atmelmegaavr", "uno"), ("x", "uno"), ("atmelavr", "zz")]
     twinish = [v for v in sorted(board_nm) if board_nm[v][0] in NM.TWIN_FAMILIES + ("unicode",)]
-    for v in rng.sample(twinish, 2200 if thorough else 420) + rng.sample(sorted(board_nm), 1500 if thorough else 240):
+    for v in rng.sample(twinish, 5000 if thorough else 420) + rng.sample(sorted(board_nm), 3000 if thorough else 240):
         home = board_nm[v][1]
         owner = next(p for p, bs in plats.items() if home in bs)
         bad.append((owner if rng.random() < 0.85 else rng.choice(list(plats)), v))
@@ -357,7 +357,9 @@ def run(ctx: C.Ctx):
         "evaluations": n_validate + len(wcases) + len(wbad) + n_extra,
         "distinct_nontrivial": len(nontrivial) + len({repr(c) for c in wcases}) + len({(c[3], c[4]) for c in wbad}),
         "rule": "validate: (1) (platforms+near-miss+sampled board names) x (all registered boards+simple near-miss names); (2) near-miss families of harness/c13_names.py - for EVERY registered id: separator runs replaced/inserted/dropped, case variants, blank/control/invisible padding, Unicode compatibility forms / case-folding specials / foreign digits / homoglyphs / combining marks, version-path-key-quote decorations, glob-regex-LIKE metacharacters, every proper prefix and suffix, single edits, digit-run changes - each against every real platform; the same families of every platform name against boards of both platforms and against board near-misses; near-miss x near-miss samples; (3) every string held by a module-level container of pio.py or occurring as a constant in its source, in both positions.  Distinct non-trivial = accepted, unknown-board or mismatched pairs (unknown-platform rejections counted trivial).  All three streams feed the property oracle AND the model correspondence (verdict and error kind); 'separating' counts, per normaliser of Tool/NearMiss.v, the cases on which the extracted keyed-index variant answers differently from the model of the code.  write_project: seeded configurations inside the guard (ports from a pool of pyserial URLs, Windows/Unix device paths, format/shell/INI metacharacters, numerals and booleans, 300-character names, then random printable ASCII and non-ASCII incl. astral; library lists from a pool incl. superstrings, case variants, URLs, format fields, long lists with far-apart repeats; sources incl. NUL, BOM, CR-only, astral, 70 kB), 30 % onto an earlier project (related source, longer/shorter configuration, another board), project directory spelled absolute / relative to the current directory / not normalised / under missing non-ASCII ancestors; every registered pair written once; library lists exhaustively over {name, other, '', superstring, case variant} up to the length bound; unregistered pairs (near-miss boards for their twin's platform, near-miss platforms, harvested strings) must raise ValueError and leave every byte of the watched tree (project, current directory, HOME, siblings) as it was.  Model-only streams (never the oracle): write_project with hostile ports/libraries outside the guard, the reader alone on structured random INI texts, _format_lib_section and _sanitize_env_name on generated inputs (not counted in distinct_nontrivial)",
-        "samples": [vcases[0], ncases[0], ncases[len(ncases) // 2], ncases[-1], hcases[0], wcases[0], wcases[n_w + 3], wbad[5], wbad[-1]],
+        "samples": [vcases[len(vcases) // 2], ncases[len(ncases) // 3], ncases[len(ncases) // 2], ncases[-1], hcases[len(hcases) // 2]]
+                   + [c for c in wcases[:n_w] if len(repr(c)) < 300 and isinstance(c[6], list)][:2]
+                   + [c for c in wcases[:n_w] if len(repr(c)) < 300 and c[7] != 0][:1] + [wcases[n_w + 3], wcases[-7], wbad[5], wbad[-1]],
         "distribution": {"validate_cases": n_validate, "validate_streams": streams,
                          "near_miss_names_per_family": fam_count,
                          "near_miss_board_names": len(board_nm), "near_miss_platform_names": len(plat_nm),
